@@ -307,6 +307,7 @@ def main():
         results.sort(key=lambda x: x[0]['id'])
         known = JOBS.known_findings()
         violations, known_hits, inconcl = [], [], []
+        unknown = {}
         total = discharged = 0
         fuc, samples, bounded, undecided = [], [], [], []
         canaries = 0
@@ -348,7 +349,7 @@ def main():
                     discharged += 1; nd += 1
                     continue
                 if o['status'] != 'FAILURE':
-                    inconcl.append('%s: obligation %s has status %s' % (j['id'], o['name'], o['status'])); continue
+                    unknown.setdefault(j['id'], []).append(o['name']); continue
                 # a failing safety obligation may be a listed known finding
                 kf = JOBS.match_safety_finding(known, prop, j, o)
                 if kf:
@@ -368,8 +369,12 @@ def main():
             for o in mine:
                 if o['kind'].startswith('safety') and len([s for s in samples if s.get('class')]) < 6 and not any(s.get('job') == j['id'] and s.get('class') for s in samples):
                     samples.append(dict(job=j['id'], obligation=o['name'], **{'class': o['kind']}, status=o['status'], text=o['desc'][:200]))
+        for jid, names in unknown.items():
+            # CBMC reports UNKNOWN for obligations downstream of a failed one
+            inconcl.append('%s: %d obligations have status UNKNOWN (first: %s)' % (jid, len(names), names[0]))
         # replay for violations
         replay_dir = os.path.join(VERIF, 'replay', prop)
+        shutil.rmtree(replay_dir, ignore_errors=True)
         vlines = []
         for j, r, o in violations:
             path, reproduced = make_replay(prop, j, r, o, work, replay_dir)
